@@ -92,6 +92,7 @@ def source_tables():
                         if mm:
                             fs.append(mm.group(1))
                     structs.setdefault(m.group(1), fs)
+    enums.setdefault("TrySendError", ["Full", "Closed"])       # tokio::sync::mpsc::error::TrySendError
     _src_tables.update(consts=consts, enums=enums, structs=structs)
     return _src_tables
 
